@@ -49,9 +49,21 @@ def allowed(groups, user_agent, path):
             if not allow:
                 continue        # empty Disallow allows everything
             return True
-        if path.startswith(_pct(prefix)):
+        if _matches(_pct(prefix), path):
             return allow
     return True
+
+
+def _matches(pattern, path):
+    """Prefix match; '*' stands for any run of characters and a final '$' anchors the end (RFC 9309 2.2.3)."""
+    if '*' not in pattern and not pattern.endswith('$'):
+        return path.startswith(pattern)
+    import re
+    anchored = pattern.endswith('$')
+    if anchored:
+        pattern = pattern[:-1]
+    rx = '.*'.join(re.escape(part) for part in pattern.split('*'))
+    return re.match(rx + ('$' if anchored else ''), path, re.S) is not None
 
 
 def _pct(prefix):
